@@ -39,7 +39,10 @@ RULE = (
     "of all instance leaves x {dynesty, emcee, pyswarms, bfgs, bfgs-history, drawer, initializer} internal "
     "arrays satisfying the sampler contract (ties in the likelihood, thinning/burn-in from AR(1) chains and "
     "test mode) + real fits of every search class that runs here (1 and 2 cores); non-trivial = at least 2 "
-    "free parameters and at least 2 samples; distinct = hash of composition + arrays"
+    "free parameters and at least 2 samples; distinct = hash of composition + arrays; growth (harness/c05_more.py): the same x "
+    "{nautilus, ultranest, zeus} conversions on stand-in sampler objects (both flattening orders) and, on the sample lists of every "
+    "conversion / fit and on directly built lists (NaN, infinite, tied likelihoods; zero and tiny weights), weight sums, weight "
+    "threshold, minimise, with_paths / without_paths (prefixes, whole paths, over-long paths, unknown names)"
 )
 
 K_PYSWARMS = "C05-pyswarms-best-cost-vs-particle0"
@@ -450,6 +453,10 @@ def finish_case(ctx, kind, case, req, model, analysis, samples, search, internal
     ctx.hit(f"free-parameters:{min(model.prior_count, 5)}")
     if len(model.paths) > model.prior_count:
         ctx.hit("model:shared-prior")
+    if kind not in c05_more.KINDS and nbad >= 0 and (case.get("mode") == "fit" or ctx.rng.random() < (0.5 if ctx.tier == "quick" else 0.25)):
+        if kind == "dynesty":
+            c05_more.weight_sum_check(ctx, kind, case, samples, normalised=True)
+        c05_more.xform_check(ctx, kind, case, model, samples)
     return nbad
 
 
@@ -795,6 +802,10 @@ SYNTH = {
     "drawer": synth_drawer,
 }
 
+import c05_more  # growth: Nautilus / UltraNest / Zeus conversions, weights, transformations of a sample list
+
+c05_more.install(sys.modules[__name__])
+
 # ---------------------------------------------------------------------------------------------
 # real fits
 
@@ -831,6 +842,8 @@ def fit_case(ctx, kind, prog=None, spec=None, settings=None):
         kw = dict(number_of_cores=cores, maxcall=settings.setdefault("maxcall", 250))
         if settings.get("x1"):
             kw["force_x1_cpu"] = True
+        if settings.get("ipu"):
+            kw["iterations_per_update"] = settings["ipu"]  # a checkpoint every few calls (resumed fits)
         if kind == "DynestyStatic":
             search = af.DynestyStatic(nlive=settings.setdefault("nlive", 18), **kw, **named)
         else:
@@ -838,6 +851,7 @@ def fit_case(ctx, kind, prog=None, spec=None, settings=None):
     elif kind == "Emcee":
         search = af.Emcee(nwalkers=settings.setdefault("nwalkers", 2 * model.prior_count + 2),
                           nsteps=settings.setdefault("nsteps", 40), number_of_cores=cores, **named,
+                          **({"iterations_per_update": settings["ipu"]} if settings.get("ipu") else {}),
                           auto_correlation_settings=AutoCorrelationsSettings(check_for_convergence=False, check_size=8))
     elif kind in ("LBFGS", "BFGS"):
         extra = {}
@@ -862,7 +876,10 @@ def fit_case(ctx, kind, prog=None, spec=None, settings=None):
         from common import scratch_dir
 
         os.chdir(scratch_dir())  # pyswarms writes a `report.log` into the working directory
-        result = search.fit(model=model, analysis=analysis)
+        if settings.get("crash_after"):
+            result, search = c05_more.crash_then_resume(ctx, kind, search, model, analysis, settings)
+        else:
+            result = search.fit(model=model, analysis=analysis)
         if settings.get("reuse"):
             # the same search object fits again, with another likelihood: what it returns is about this fit
             ctx.hit("fit:search-object-used-before")
@@ -1018,7 +1035,8 @@ def run(ctx):
     ctx.assumptions = [
         "the samplers (dynesty, emcee, pyswarms, scipy) are black boxes; their array contracts are hypotheses of the "
         "theorems and are exercised, not proved, by the real fits",
-        "nautilus, ultranest and zeus are not installed: their conversions are not run",
+        "nautilus, ultranest and zeus are not installed: no fit of these classes is run; their conversions are run on stand-in "
+        "sampler objects carrying generated arrays (harness/c05_more.py), the samplers' array contracts are hypotheses",
         "likelihood comparisons use rtol 1e-9 (posterior minus prior cancellation); data movement is bit exact",
         "user classes are those of harness/vlib.py; the likelihood is a weighted quadratic of all float leaves",
         "real fits are seeded through random/numpy but dynesty's own generator is not: fit replays re-run the "
@@ -1028,7 +1046,7 @@ def run(ctx):
     run_corpus(ctx)
     rng = ctx.rng
     n = ctx.n(330, 6000)
-    kinds = list(SYNTH)
+    kinds = [k for k in SYNTH if k not in c05_more.KINDS and k != "xform"]
     for k in range(n):
         kind = kinds[k % len(kinds)]
         prog, model = gen_model(ctx)
@@ -1037,13 +1055,14 @@ def run(ctx):
         if quant:
             ctx.hit("likelihood:piecewise-constant(ties)")
         guarded(ctx, kind, prog, analysis, lambda: SYNTH[kind](ctx, prog, model, analysis))
+    c05_more.run_more(ctx)
     for _ in range(ctx.n(10, 60)):
         prog, model = gen_model(ctx)
         analysis = make_analysis(rng, model)
         guarded(ctx, "init", prog, analysis, lambda: init_case(ctx, prog, model, analysis))
     fits = list(QUICK_FITS) + NAMED_FITS
     if ctx.tier == "thorough":
-        fits = list(QUICK_FITS) * 10 + NAMED_FITS * 6 + MORE_FITS * 8
+        fits = list(QUICK_FITS) * 10 + NAMED_FITS * 6 + MORE_FITS * 8 + c05_more.RESUME_FITS * 2
     for kind, settings in fits:
         fit_case(ctx, kind, settings=dict(settings))
     # a search class of which no fit returned a result is no longer covered
@@ -1052,7 +1071,7 @@ def run(ctx):
         if n_tried >= 2 and crashed.get(kind, 0) == n_tried:
             ctx.disagree(f"fit:{kind}:always-raises", {"mode": "fit", "kind": kind},
                          ctx.notes.get("fit_crashes", [])[:3], "a result")
-    ctx.notes["searches_not_run"] = "Nautilus, UltraNest, Zeus (not installed in this environment)"
+    ctx.notes["searches_not_run"] = "Nautilus, UltraNest, Zeus (not installed in this environment; conversions run on stand-ins)"
 
 
 def replay(ctx, payload):
